@@ -70,6 +70,15 @@ Theorem C12_parse_well_defined : forall E, z_in 59 (delims E) = true -> comment_
 Proof. exact prog_fuel_irrelevant. Qed.
 Print Assumptions C12_parse_well_defined.
 
+(* repeatability over (text, module): for every module m in which a text is parsed, any two parses with
+   enough fuel give the same result (a program or an error), never OutOfFuel.  The module is the only parser
+   state klongpy keeps between parses; it enters read_sym only. *)
+Theorem C12_parse_repeatable : forall E m, z_in 59 (delims E) = true -> comment_guard E = true ->
+  forall t f1 f2, (f1 >= fuel_for (length t))%nat -> (f2 >= fuel_for (length t))%nat ->
+  prog (env_with_module E m) f1 t = prog (env_with_module E m) f2 t /\ prog (env_with_module E m) f1 t <> OOF.
+Proof. exact prog_fuel_irrelevant_module. Qed.
+Print Assumptions C12_parse_repeatable.
+
 (* T12.comment_refuted (R6, repaired in /repo by `fix: .comment("") no longer hangs the parser`):
    without the guard the marker loop of read_sys_comment never ends for the empty marker, whatever the fuel *)
 Theorem C12_unguarded_comment_refuted : forall E, comment_guard E = false ->
@@ -101,4 +110,10 @@ Proof. vm_compute. reflexivity. Qed.
 
 (* {      is rejected, not a hang *)
 Example C12_reject_example : prog genv (fuel_for 1) [123] = Err EChar.
+Proof. vm_compute. reflexivity. Qed.
+
+(* a   parsed in module m  is the symbol a`m ; x and .f are not qualified *)
+Example C12_module_example :
+  prog (env_with_module genv (Some [109])) (fuel_for 8) [97; 59; 120; 59; 46; 102]
+  = Ok ([], [ASym [97; 96; 109]; ASym [120]; ASym [46; 102]]).
 Proof. vm_compute. reflexivity. Qed.
